@@ -43,8 +43,8 @@ func init() {
 	propTable["C02"].KeyFilter["STICKYFLAG"] = keyHas("FilterOptimizer")
 	propTable["C02"].KeyFilter["NOROWDROP"] = keyHas("ScanPlan", "MultiGetPlan")
 
-	prop("C03", []string{"NOROWDROP", "CONSUMED", "FETCHLOOPEND", "CACHECOPY", "ADJUSTCALL", "ARITY", "LISTCOVER", "BODYKIND", "ASTIMMUT", "DISPATCH", "TWINPRIM", "LIMITGATE", "ERRPROP", "EVALBOTH", "FRESHROWS", "ROWINDEX", "ROWCARRY", "ADJUSTCOVER", "ROWCACHE", "FILTERED", "IFACEEQ", "ROWALIAS", "SHORTBATCH", "REGIONSTICKY"},
-		"Structural necessary conditions of C03 (agreement of the row and batch twins): DISPATCH/TWINPRIM (both modes route every operator to corresponding helpers reaching the same primitives with the same literals), BODYKIND (row and vector bodies box the same kinds), ARITY (both modes apply both arity tests), LISTCOVER (both modes handle the same list representations), NOROWDROP/CONSUMED/LIMITGATE/FETCHLOOPEND (batch loops neither drop consumed rows, nor emit skipped ones, nor bypass the limit, nor spin), CACHECOPY/ADJUSTCALL/ASTIMMUT (the chunk cache and the tree are not corrupted by in-place vector operators), ERRPROP on both twins of every plan. EVALBOTH (no batch-only short circuit), ROWINDEX/ROWCARRY (no batch-only reuse of row 0 or of an earlier row's operand), FRESHROWS (batch results never alias plan-owned buffers that the next call rewrites). ADJUSTCOVER (no by-position cache entry of the unfiltered chunk survives filtering). ROWCACHE/FILTERED (row mode does not reuse per-row cache entries of another row and returns only filtered pairs, as batch mode does). IFACEEQ/ROWALIAS (no batch-only comparison or sharing shortcut). SHORTBATCH (batch protocol: a consumer may stop on a short batch only if every producer returns short batches only when exhausted). REGIONSTICKY(only-at-end, reset) (a scan marks itself finished only where its cursor or region ended, so no later call is cut short).",
+	prop("C03", []string{"NOROWDROP", "CONSUMED", "FETCHLOOPEND", "CACHECOPY", "ADJUSTCALL", "ARITY", "LISTCOVER", "BODYKIND", "ASTIMMUT", "DISPATCH", "TWINPRIM", "LIMITGATE", "ERRPROP", "EVALBOTH", "FRESHROWS", "ROWINDEX", "ROWCARRY", "ADJUSTCOVER", "ROWCACHE", "FILTERED", "IFACEEQ", "ROWALIAS", "SHORTBATCH", "REGIONSTICKY", "LIMITGUARD"},
+		"Structural necessary conditions of C03 (agreement of the row and batch twins): DISPATCH/TWINPRIM (both modes route every operator to corresponding helpers reaching the same primitives with the same literals), BODYKIND (row and vector bodies box the same kinds), ARITY (both modes apply both arity tests), LISTCOVER (both modes handle the same list representations), NOROWDROP/CONSUMED/LIMITGATE/FETCHLOOPEND (batch loops neither drop consumed rows, nor emit skipped ones, nor bypass the limit, nor spin), CACHECOPY/ADJUSTCALL/ASTIMMUT (the chunk cache and the tree are not corrupted by in-place vector operators), ERRPROP on both twins of every plan. EVALBOTH (no batch-only short circuit), ROWINDEX/ROWCARRY (no batch-only reuse of row 0 or of an earlier row's operand), FRESHROWS (batch results never alias plan-owned buffers that the next call rewrites). ADJUSTCOVER (no by-position cache entry of the unfiltered chunk survives filtering). ROWCACHE/FILTERED (row mode does not reuse per-row cache entries of another row and returns only filtered pairs, as batch mode does). IFACEEQ/ROWALIAS (no batch-only comparison or sharing shortcut). SHORTBATCH (batch protocol: a consumer may stop on a short batch only if every producer returns short batches only when exhausted). REGIONSTICKY(only-at-end, reset) (a scan marks itself finished only where its cursor or region ended, so no later call is cut short). LIMITGUARD (row mode does not pull a child row beyond a full window).",
 		"Equality of computed values and the refill arithmetic beyond these clauses need execution.")
 	propTable["C03"].KeyFilter["REGIONSTICKY"] = keyHas("|only-at-end", "|reset", "|fetch", "|loop")
 
@@ -69,8 +69,8 @@ func init() {
 	propTable["C07"].KeyFilter["ASSERT"] = keyHas("orderColumnsRow", "FinalOrderPlan")
 	propTable["C07"].KeyFilter["NOROWDROP"] = keyHas("FinalOrderPlan")
 
-	prop("C08", []string{"CONSUMED", "LIMITGATE", "LIMITMAP", "NOROWDROP", "LIMITWRAP", "RMGUARD", "FETCHLOOPEND", "SHORTBATCH"},
-		"Structural necessary conditions of C08: LIMITMAP (offset and count are never swapped between the parser and the three consumers), CONSUMED (rows counted as skipped are never emitted; the remaining offset is recomputed per batch; the partial batch continues at batch[remaining:]), NOROWDROP (rows are dropped only on the count condition), LIMITGATE (the pushed-down limit is bypassed only when absent), LIMITWRAP/RMGUARD (DELETE ... LIMIT limits the raw pairs and never takes the key-removal shortcut), FETCHLOOPEND (skipping past the end terminates). SHORTBATCH (batch protocol: a consumer may stop on a short batch only if every producer returns short batches only when exhausted).",
+	prop("C08", []string{"CONSUMED", "LIMITGATE", "LIMITMAP", "NOROWDROP", "LIMITWRAP", "RMGUARD", "FETCHLOOPEND", "SHORTBATCH", "LIMITGUARD"},
+		"Structural necessary conditions of C08: LIMITMAP (offset and count are never swapped between the parser and the three consumers), CONSUMED (rows counted as skipped are never emitted; the remaining offset is recomputed per batch; the partial batch continues at batch[remaining:]), NOROWDROP (rows are dropped only on the count condition), LIMITGATE (the pushed-down limit is bypassed only when absent), LIMITWRAP/RMGUARD (DELETE ... LIMIT limits the raw pairs and never takes the key-removal shortcut), FETCHLOOPEND (skipping past the end terminates). SHORTBATCH (batch protocol: a consumer may stop on a short batch only if every producer returns short batches only when exhausted). LIMITGUARD (typestate of the emitted-rows counter: tested below the limit before every emission and, in row mode, before the fetch of the row to emit; the counter is not the position counter).",
 		"The count arithmetic over refills is a runtime quantity.")
 	propTable["C08"].KeyFilter["RMGUARD"] = keyHas("no-limit")
 
@@ -86,8 +86,8 @@ func init() {
 
 	propTable["C10"].KeyFilter["STICKYFLAG"] = keyHas("ExpressionOptimizer")
 
-	prop("C11", []string{"RMGUARD", "DELKEYS", "MUTSITE", "CHILDVISIT", "LIMITWRAP", "LIMITMAP", "ERRPROP", "NOROWDROP", "CONSUMED", "ARGFRESH", "SHORTBATCH", "REGIONSTICKY"},
-		"Structural necessary conditions of C11: DELKEYS (BatchDelete receives exactly the keys of the rows fetched in that iteration), MUTSITE(e) (DELETE issues no Put), RMGUARD with CHILDVISIT(Walk) (direct key removal only without LIMIT and without any AND anywhere in the filter; the walk sees every node), LIMITWRAP/LIMITMAP/CONSUMED/NOROWDROP (the limit is applied to the raw pairs, exactly), ERRPROP in execute. ARGFRESH (no function applied in the WHERE clause rewrites the key bytes that are then handed to BatchDelete). SHORTBATCH (batch protocol: a consumer may stop on a short batch only if every producer returns short batches only when exhausted). REGIONSTICKY(only-at-end, reset) (a scan marks itself finished only where its cursor or region ended, so no later call is cut short).",
+	prop("C11", []string{"RMGUARD", "DELKEYS", "MUTSITE", "CHILDVISIT", "LIMITWRAP", "LIMITMAP", "ERRPROP", "NOROWDROP", "CONSUMED", "ARGFRESH", "SHORTBATCH", "REGIONSTICKY", "GETNIL", "LIMITGUARD"},
+		"Structural necessary conditions of C11: DELKEYS (BatchDelete receives exactly the keys of the rows fetched in that iteration), MUTSITE(e) (DELETE issues no Put), RMGUARD with CHILDVISIT(Walk) (direct key removal only without LIMIT and without any AND anywhere in the filter; the walk sees every node), LIMITWRAP/LIMITMAP/CONSUMED/NOROWDROP (the limit is applied to the raw pairs, exactly), ERRPROP in execute. ARGFRESH (no function applied in the WHERE clause rewrites the key bytes that are then handed to BatchDelete). SHORTBATCH (batch protocol: a consumer may stop on a short batch only if every producer returns short batches only when exhausted). REGIONSTICKY(only-at-end, reset) (a scan marks itself finished only where its cursor or region ended, so no later call is cut short). GETNIL (a pair with an empty value is present for the scan-and-delete strategy too), LIMITGUARD (DELETE ... LIMIT).",
 		"Which keys the filter selects is C01/C02/C08.")
 	propTable["C11"].KeyFilter["REGIONSTICKY"] = keyHas("|only-at-end", "|reset", "|fetch", "|loop")
 	propTable["C11"].KeyFilter["MUTSITE"] = keyHas("MUTSITE|e|", "MUTSITE|a|")
@@ -97,9 +97,10 @@ func init() {
 	propTable["C11"].KeyFilter["CONSUMED"] = keyHas("(*LimitPlan)")
 	propTable["C11"].KeyFilter["LIMITMAP"] = keyHas("LimitPlan", "parse|")
 
-	prop("C12", []string{"EXECONCE", "WRITEONCE", "PUTKEYFLOW", "KWFLAGS", "MUTSITE", "CHILDVISIT", "STMTLIST", "ROWCACHE", "RMKEYFLOW"},
-		"Structural necessary conditions of C12: EXECONCE (writes happen only while executed == false, which is set on every path after they start and reset only by Init), WRITEONCE (one storage write per PUT/REMOVE, outside any loop, with every expression evaluated before it), PUTKEYFLOW (each value expression sees its own pair's evaluated key; pairs reach BatchPut in statement order, untouched by any other call), KWFLAGS and CHILDVISIT(Validate) (the static restrictions are wired and every key/value expression is checked), MUTSITE(e) (PUT only puts, REMOVE only deletes). STMTLIST (the write plans receive the statement's own pair/key list: nothing is filtered out, so every pair is evaluated and a failing one fails the statement). ROWCACHE(PutPlan/RemovePlan) (one context is not shared between the pairs of a statement without being cleared, so a value cached for one pair is not seen by the next). RMKEYFLOW (REMOVE deletes the evaluated keys, not text from the syntax tree).",
+	prop("C12", []string{"EXECONCE", "WRITEONCE", "PUTKEYFLOW", "KWFLAGS", "MUTSITE", "CHILDVISIT", "STMTLIST", "ROWCACHE", "RMKEYFLOW", "ERRALL"},
+		"Structural necessary conditions of C12: EXECONCE (writes happen only while executed == false, which is set on every path after they start and reset only by Init), WRITEONCE (one storage write per PUT/REMOVE, outside any loop, with every expression evaluated before it), PUTKEYFLOW (each value expression sees its own pair's evaluated key; pairs reach BatchPut in statement order, untouched by any other call), KWFLAGS and CHILDVISIT(Validate) (the static restrictions are wired and every key/value expression is checked), MUTSITE(e) (PUT only puts, REMOVE only deletes). STMTLIST (the write plans receive the statement's own pair/key list: nothing is filtered out, so every pair is evaluated and a failing one fails the statement). ROWCACHE(PutPlan/RemovePlan) (one context is not shared between the pairs of a statement without being cleared, so a value cached for one pair is not seen by the next). RMKEYFLOW (REMOVE deletes the evaluated keys, not text from the syntax tree). ERRALL(PutPlan/RemovePlan) (an error of a key or value expression is returned, not another variable).",
 		"The store contents after the write depend on the caller's Storage.")
+	propTable["C12"].KeyFilter["ERRALL"] = keyHas("PutPlan", "RemovePlan")
 	propTable["C12"].KeyFilter["ROWCACHE"] = keyHas("PutPlan", "RemovePlan")
 	propTable["C12"].KeyFilter["MUTSITE"] = keyHas("MUTSITE|e|", "MUTSITE|c|")
 	propTable["C12"].KeyFilter["CHILDVISIT"] = keyHas("Validate")
